@@ -53,6 +53,13 @@ Calibration (unchanged tree)
   ``set_categories(list)``, ``astype(str)``, ``==`` and ``isin`` are generated on them (``.cat.codes`` /
   ``.cat.categories`` raise a documented NotImplementedError, and the category ORDER found by ``as_known`` is not
   specified), and their category lists are not compared.
+* object-dtype string columns (``astype(object)``, ``meta=(name, "object")``) are out of the domain: with pandas >= 3
+  dask's ``meta_nonempty`` deliberately fills object columns with non-string objects, so ``.str`` on them is not
+  supported; string results of user functions are declared with ``meta=(name, "str")``.
+* ``.cat`` operations after ``as_unknown`` are restricted like those after ``astype('category')``.
+* ``vf.gen.frames.compare`` classifies every pandas *values* message as ``index`` (the text contains "[index]:");
+  the module re-checks the index itself and relabels to ``values``; a pure permutation of the columns is reported as
+  ``column-order``.
 * ``str.split(expand=True)`` is generated (with ``n=``) only on strings built to contain exactly ``n`` separators in
   every row, because dask documents that the number of output columns is taken from ``n``.
 """
@@ -78,14 +85,19 @@ ASSUMPTIONS = [
 ]
 BUDGET = {"quick": 60, "thorough": 540}
 FLOORS = {
-    "quick": {"evaluations": 1500, "distinct_nontrivial": 900,
-              "counters": {"compared": 1200, "unknown_divisions": 300, "empty_partition_inputs": 250,
-                           "second_operand_pipelines": 150, "duplicate_index_inputs": 150},
-              "max_skipped_fraction": 0.3},
-    "thorough": {"evaluations": 20000, "distinct_nontrivial": 12000,
-                 "counters": {"compared": 16000, "unknown_divisions": 4000, "empty_partition_inputs": 3500,
-                              "second_operand_pipelines": 2000, "duplicate_index_inputs": 2000},
-                 "max_skipped_fraction": 0.3},
+    # measured on the unchanged tree (seeds 0,1,2,7,12345, complete streams): compared >= 1862, distinct non-trivial >= 1434,
+    # unknown_divisions >= 1054, empty_partition_inputs >= 399, second_operand_pipelines >= 151, duplicate_index_inputs >= 697
+    "quick": {"evaluations": 900, "distinct_nontrivial": 650,
+              "counters": {"compared": 840, "nontrivial_compared": 640, "unknown_divisions": 470, "known_divisions": 350,
+                           "empty_partition_inputs": 180, "second_operand_pipelines": 65, "duplicate_index_inputs": 310,
+                           "unsorted_index_inputs": 90, "user_function_with_meta": 70, "mask_from_earlier_aligned_state": 40},
+              "sets": {"pipeline_shapes": 760}, "max_skipped_fraction": 0.3},
+    "thorough": {"evaluations": 16000, "distinct_nontrivial": 11500,
+                 "counters": {"compared": 15000, "nontrivial_compared": 11500, "unknown_divisions": 8500, "known_divisions": 6200,
+                              "empty_partition_inputs": 3200, "second_operand_pipelines": 1200, "duplicate_index_inputs": 5600,
+                              "unsorted_index_inputs": 1600, "user_function_with_meta": 1250,
+                              "mask_from_earlier_aligned_state": 720},
+                 "sets": {"pipeline_shapes": 8000}, "max_skipped_fraction": 0.3},
 }
 EXHAUSTIVE_SPACE = None
 CLAIM = ("Every generated pipeline of row-wise / elementwise operations (the operation table of the statement, 2-5 "
@@ -98,7 +110,96 @@ LEVEL_NOTE = ("trusts pandas as the reference and the harness comparison (vf.gen
 TECHNIQUE = "runtime monitoring: pandas differential on random typed operation pipelines, ordered comparison incl. index"
 CASE_TIMEOUT = 60
 
-PENDING = {}
+PENDING = {
+    'expr-node:KeyError@MethodOperator._simplify_up':
+        "F1 Binop._simplify_up rebuilds MethodOperator as type(self)(left, right): KeyError('right') after DataFrame.add/sub/... + projection",
+    'where-frame:ValueError@compute':
+        "F4 Where/Mask projection passthrough leaves cond/other as DataFrames: 'Must specify axis=0 or 1'",
+    'expr-node:ValueError@Where._meta':
+        "F4 Where/Mask projection passthrough leaves cond/other as DataFrames: 'Must specify axis=0 or 1'",
+    'filter:predicate-is-astype-node:exception':
+        'F5 Filter whose predicate is an AsType node is rewritten to AsType(Filter(pred, pred)): returns the mask / fails downstream',
+    'filter:predicate-is-astype-node:wrong-result':
+        'F5 Filter whose predicate is an AsType node is rewritten to AsType(Filter(pred, pred)): returns the mask / fails downstream',
+    'expr-node:ValueError@Mask._meta':
+        "F4 Where/Mask projection passthrough leaves cond/other as DataFrames: 'Must specify axis=0 or 1'",
+    'frame-arith:operator:AssertionError@Projection._simplify_down':
+        'F2/F3 projection pushdown into a binary op whose operands have different columns (Binop / OpAlignPartitions): AssertionError',
+    'astype-then-filter:exception':
+        'F6 filter pushed below astype evaluates its predicate on the un-cast columns (silent wrong rows or meta failure)',
+    'apply:axis1:empty-partition:exception':
+        "F11 DataFrame.apply(axis=1, meta=) on an empty partition returns pandas' empty float/frame result instead of the meta; later steps fail",
+    'other:frame-arith:KeyError@Projection._meta':
+        'F3 OpAlignPartitions projection passthrough projects only the left operand: extra columns / KeyError / pandas errors after a projection of (ddf op other_ddf)',
+    'frame-cmp:method:wrong-result':
+        'F1 projection pushed into DataFrame.lt/gt/eq(..., axis=0) drops axis: wrong columns/values/length or pandas error in the task',
+    'other:mask:AssertionError@Blockwise._divisions(mismatched-divisions)':
+        "F10 projection pushed through an aligned filter/assign/binary op: 'Mismatched divisions between multiple Blockwise dependencies'",
+    'other:assign:wrong-result':
+        'F8 assign(col=differently partitioned series) aligns with an outer join: extra all-NaN rows, upcast columns, reindex error on duplicates',
+    'partition-wise-evaluation:value-dependent-result-of-pandas-per-partition:dtype':
+        "F12 pandas' value-dependent dtype (int->float upcast, datetime->str format) decided per partition differs from pandas on the whole frame",
+    'assign:any-layout:column-order':
+        'F9 squashing two Assign nodes that overwrite a column changes the column order',
+    'frame-cmp:method:exception':
+        'F1 projection pushed into DataFrame.lt/gt/eq(..., axis=0) drops axis: wrong columns/values/length or pandas error in the task',
+    'other:assign:AssertionError@Blockwise._divisions(mismatched-divisions)':
+        "F10 projection pushed through an aligned filter/assign/binary op: 'Mismatched divisions between multiple Blockwise dependencies'",
+    'fillna:dict-value-then-projection:wrong-result':
+        'F7 Fillna(dict) projection passthrough: dict applied to the projected Series (values not filled / object dtype)',
+    'other:frame-arith:any-layout:columns':
+        'F3 OpAlignPartitions projection passthrough projects only the left operand: extra columns / KeyError / pandas errors after a projection of (ddf op other_ddf)',
+    'other:frame-arith:AssertionError@Projection._simplify_down':
+        'F2/F3 projection pushdown into a binary op whose operands have different columns (Binop / OpAlignPartitions): AssertionError',
+    'other:frame-arith:ValueError@_expr.py:operation':
+        'F3 OpAlignPartitions projection passthrough projects only the left operand: extra columns / KeyError / pandas errors after a projection of (ddf op other_ddf)',
+    'other:series-arith:AssertionError@Projection._simplify_down':
+        'F2/F3 projection pushdown into a binary op whose operands have different columns (Binop / OpAlignPartitions): AssertionError',
+    'other:where-other:KeyError@Projection._meta':
+        'F3 OpAlignPartitions projection passthrough projects only the left operand: extra columns / KeyError / pandas errors after a projection of (ddf op other_ddf)',
+    'partition-wise-evaluation:value-dependent-result-of-pandas-per-partition:values':
+        "F12 pandas' value-dependent dtype (int->float upcast, datetime->str format) decided per partition differs from pandas on the whole frame",
+    'apply:axis1:IndexingError@compute':
+        "F11 DataFrame.apply(axis=1, meta=) on an empty partition returns pandas' empty float/frame result instead of the meta; later steps fail",
+    'astype-then-filter:wrong-result:length':
+        'F6 filter pushed below astype evaluates its predicate on the un-cast columns (silent wrong rows or meta failure)',
+    'expr-node:AttributeError@StringAccessor.__init__':
+        "F13 str_series + 'literal' has object meta; meta_nonempty of object is non-string, so a second chained .str operation raises",
+    'expr-node:TypeError@MethodOperatorAlign._meta':
+        'F3/F1 follow-up: operand of an aligned/method binary op left un-projected or axis lost; meta computation raises TypeError',
+    'frame-arith:method:AssertionError@Projection._simplify_down':
+        'F2/F3 projection pushdown into a binary op whose operands have different columns (Binop / OpAlignPartitions): AssertionError',
+    'other:assign:exception':
+        'F8 assign(col=differently partitioned series) aligns with an outer join: extra all-NaN rows, upcast columns, reindex error on duplicates',
+    'other:series-arith:AssertionError@Blockwise._divisions(mismatched-divisions)':
+        "F10 projection pushed through an aligned filter/assign/binary op: 'Mismatched divisions between multiple Blockwise dependencies'",
+    'other:series-arith:meta-generation-RuntimeError':
+        'F6 filter pushed below astype evaluates its predicate on the un-cast columns (silent wrong rows or meta failure)',
+    'apply:axis1:UFuncTypeError@compute':
+        "F11 DataFrame.apply(axis=1, meta=) on an empty partition returns pandas' empty float/frame result instead of the meta; later steps fail",
+    'apply:axis1:meta-generation-RuntimeError':
+        'F6 filter pushed below astype evaluates its predicate on the un-cast columns (silent wrong rows or meta failure)',
+    'expr-node:TypeError@LE._meta':
+        'F3/F1 follow-up: operand of an aligned/method binary op left un-projected or axis lost; meta computation raises TypeError',
+    'frame-arith:operator:ValueError@compute':
+        "F4 Where/Mask projection passthrough leaves cond/other as DataFrames: 'Must specify axis=0 or 1'",
+    'other:frame-arith:InvalidIndexError@backends.py:concat_pandas':
+        'F3 OpAlignPartitions projection passthrough projects only the left operand: extra columns / KeyError / pandas errors after a projection of (ddf op other_ddf)',
+    'other:frame-arith:TypeError@_expr.py:operation':
+        'F3 OpAlignPartitions projection passthrough projects only the left operand: extra columns / KeyError / pandas errors after a projection of (ddf op other_ddf)',
+    'other:frame-arith:ValueError@compute':
+        'F3 OpAlignPartitions projection passthrough projects only the left operand: extra columns / KeyError / pandas errors after a projection of (ddf op other_ddf)',
+    'other:series-arith:IndexingError@compute':
+        'F3 OpAlignPartitions projection passthrough projects only the left operand: extra columns / KeyError / pandas errors after a projection of (ddf op other_ddf)',
+    'other:series-arith:KeyError@Projection._meta':
+        'F3 OpAlignPartitions projection passthrough projects only the left operand: extra columns / KeyError / pandas errors after a projection of (ddf op other_ddf)',
+    'other:series-arith:ValueError@compute':
+        'F3 OpAlignPartitions projection passthrough projects only the left operand: extra columns / KeyError / pandas errors after a projection of (ddf op other_ddf)',
+    'other:where-other:AssertionError@Blockwise._divisions(mismatched-divisions)':
+        "F10 projection pushed through an aligned filter/assign/binary op: 'Mismatched divisions between multiple Blockwise dependencies'",
+    'other:where-other:TypeError@backends.py:meta_nonempty_object':
+        'F3 OpAlignPartitions projection passthrough projects only the left operand: extra columns / KeyError / pandas errors after a projection of (ddf op other_ddf)',
+}
 
 
 def cases(tier, seed):
